@@ -181,6 +181,57 @@ func check(c Case) error {
 		}
 	}
 
+	// sequences on ONE File object: a failure must not be forgotten by the next call, and a File
+	// that rendered once must still fail cleanly after something invalid was added to it
+	{
+		f, _ := build()
+		for attempt := 1; attempt <= 3; attempt++ {
+			w := &faultWriter{}
+			err := f.Render(w)
+			cell("File.Render (same File, attempt 2-3)", "none", valid)
+			if valid {
+				if err != nil || !bytes.Equal(w.buf.Bytes(), refBuf.Bytes()) {
+					return fmt.Errorf("File.Render attempt %d on the same File: err=%v, bytes differ=%v", attempt, err, !bytes.Equal(w.buf.Bytes(), refBuf.Bytes()))
+				}
+			} else {
+				if err == nil {
+					return fmt.Errorf("File.Render attempt %d on the same File returned nil although the tree does not render (attempt 1 reported: %v)", attempt, firstLine(refErr))
+				}
+				if w.calls != 0 {
+					return fmt.Errorf("File.Render attempt %d on the same File failed but wrote %d bytes", attempt, w.bytes)
+				}
+			}
+		}
+		if valid {
+			// now break the tree and try again: Render and Save must fail and leave everything alone
+			f.Add(jen.Func().Lit(1).Op("}"))
+			w := &faultWriter{}
+			err := f.Render(w)
+			cell("File.Render (valid, rendered, then broken)", "none", false)
+			if err == nil {
+				return fmt.Errorf("a File that rendered once and then got an invalid item renders without error: %q", w.buf.Bytes())
+			}
+			if w.calls != 0 {
+				return fmt.Errorf("a File that rendered once and then got an invalid item failed to render but wrote %d bytes", w.bytes)
+			}
+			if dir, derr := os.MkdirTemp("", "c10s-"); derr == nil {
+				p := filepath.Join(dir, "t.go")
+				old := []byte("// good output of an earlier run\npackage old\n")
+				_ = os.WriteFile(p, old, 0o644)
+				for attempt := 1; attempt <= 2; attempt++ {
+					serr := f.Save(p)
+					got, _ := os.ReadFile(p)
+					cell("File.Save (valid, rendered, then broken)", "existing target", false)
+					if serr == nil || !bytes.Equal(got, old) {
+						os.RemoveAll(dir)
+						return fmt.Errorf("Save attempt %d of a File broken after a successful render: err=%v, target now %q", attempt, serr, got)
+					}
+				}
+				os.RemoveAll(dir)
+			}
+		}
+	}
+
 	// File.Save against a real filesystem
 	dir, err := os.MkdirTemp("", "c10-")
 	if err != nil {
@@ -374,7 +425,7 @@ func firstLine(err error) string {
 func TestC10(t *testing.T) {
 	r := hx.Start(t, "C10")
 	defer r.Finish(t)
-	r.Rule("fault enumeration x generated trees: for every generated tree (plausible valid programs and random, mostly invalid, DSL trees) the complete matrix {File.Render, Statement.Render, Statement.RenderWithFile, Group.Render, Group.RenderWithFile} x {healthy writer, error on the 1st / 2nd / 3rd Write, short write + error, every Write fails} and File.Save x {fresh target, existing target with known content and mtime, existing targets resembling the output (same bytes, other letter case, a prefix, output plus trailing bytes), missing parent directory, path component is a regular file, target is a directory, /dev/full, name too long} is executed; the matrix with per-cell counts is in the evidence; non-trivial = every tree (each meets every cell); distinct by tree")
+	r.Rule("fault enumeration x generated trees: for every generated tree (plausible valid programs and random, mostly invalid, DSL trees) the complete matrix {File.Render, Statement.Render, Statement.RenderWithFile, Group.Render, Group.RenderWithFile} x {healthy writer, error on the 1st / 2nd / 3rd Write, short write + error, every Write fails} and File.Save x {fresh target, existing target with known content and mtime, existing targets resembling the output (same bytes, other letter case, a prefix, output plus trailing bytes), missing parent directory, path component is a regular file, target is a directory, /dev/full, name too long} is executed, plus sequences on one File object (three renders in a row; a File that rendered, then received an invalid item, must fail without writing and Save must leave the target alone, twice); the matrix with per-cell counts is in the evidence; non-trivial = every tree (each meets every cell); distinct by tree")
 	r.Assume("the process runs as root, so permission faults are not used; a Write that returns n < len(p) without an error violates io.Writer's contract and is not injected; whether a returned error wraps the injected cause is recorded, not asserted")
 	valid, invalid := 0, 0
 	note := func(c Case) {
